@@ -140,6 +140,13 @@ CLAIMED = {
         "Asserted only in the well-scaled regime as the property states; the twin relation needs no oracle beyond the LP used to exclude the boundary band.",
         "DESIGN.md section 6 C15",
     ),
+    "C11": (
+        "Hypothesis property-based testing: constraint predicates, exact recomputation of the returned capture, monotone-descent invariant over the hook's loss trace, BVLS / SLSQP-witness optimality of the factor fitted last, exact repetition per seed",
+        "Generated systems x 1-3 layers x random masks x equal-L1 on/off x subsample None/'fast'/fraction x opacity bounds x weights x seeds x 5-60 in-gamut targets; every returned (X, P, B_pred) checked against all constraints, "
+        "the loss trace against descent, the last-fitted factor against an independent bounded least-squares optimum.",
+        "SCS accuracy (2e-3 of the range, 5e-3 (1+loss)); the descent clause is visible only through the DREYE_VERIF hook; targets are captures of in-bound intensities (B - baseline >= 0).",
+        "DESIGN.md section 6 C11",
+    ),
 }
 
 PENDING_REASON = "check not built yet in this revision (planned, see DESIGN.md section 6); not claimed until its check runs quietly on the unchanged tree"
